@@ -21,7 +21,8 @@
    K09, K14, K73-K78. *)
 From Coq Require Import List String Arith Bool Lia.
 Import ListNotations.
-From MV Require Import Js.PrintModel Js.PrintSpec Js.PrintGen Js.PrintProofs.
+From MVGen Require Import JsGates_gen.
+From MV Require Import Js.PrintModel Js.PrintSpec Js.PrintGen Js.PrintProofs Js.PrintGroup.
 Local Open Scope string_scope.
 
 Example js_prec_tables_ok : prec_tables_ok T_gen = true.
@@ -58,6 +59,24 @@ Example print_refuted_without_table_entries :
   print T_old 0 (EBin "NullishEqToken" (EAtom "g3") (EGroup (EBin "CommaToken" (EAtom "g2") (EAtom "s")))) =
     [TAtom "g3"; TOp "NullishEqToken"; TAtom "g2"; TOp "CommaToken"; TAtom "s"].
 Proof. vm_compute. auto. Qed.
+
+(* rewrites that build NEW operator nodes (if-merging, conditional -> && / ||, ?? folding, !-pushing) put each operand
+   through groupExpr(x, P): the operand is then well-formed at every level up to P (one re-association of ?? chains
+   excepted), and at EVERY such site of js/*.go — facts regenerated from the source — P is at least the grammar level of
+   the operand position, so the rewritten tree is again in the domain of print_derives *)
+Theorem group_expr_wf : forall T, prec_tables_ok T = true ->
+  forall e l0 need p, wf l0 e -> need <= p ->
+  ~ (expr_prec T e = OpCoalesce /\ p = OpBitOr) ->
+  wf need (group_expr T p e).
+Proof. exact PrintGroup.group_expr_wf. Qed.
+Print Assumptions group_expr_wf.
+
+Theorem group_sites_ok : forall s, In s js_group_sites -> gsite_ok T_gen s = true.
+Proof. apply forallb_forall. vm_compute. reflexivity. Qed.
+Print Assumptions group_sites_ok.
+
+Example group_sites_nonvacuous : (20 <= List.length js_group_sites)%nat.
+Proof. vm_compute. repeat constructor. Qed.
 
 (* non-vacuity: (a+b)*(c*d) keeps both pairs, (a*b)+c drops its pair; both trees satisfy wf *)
 Example print_nonvacuous :
